@@ -13,6 +13,7 @@ from __future__ import annotations
 
 import json
 import random
+import threading
 from concurrent.futures import ThreadPoolExecutor
 
 from harness import core
@@ -23,11 +24,24 @@ def _label(name, c):
     return name + " " + json.dumps({k: sorted(v) if isinstance(v, set) else v for k, v in c.items()}, sort_keys=True)
 
 
-def _vacuity(groups):
+class _Acc:
+    """what is kept of a family once it has been replayed (the export lines themselves are dropped)"""
+
+    def __init__(self):
+        self.lock = threading.Lock()
+        self.scenarios = 0
+        self.several = 0
+        self.nontrivial = 0
+        self.by = {}
+        self.need = {o: {"tuple", "completed", "failed", "silent", "tie_matters", "disposed", "disposed_in_on_next"}
+                     for o in cc.CORE_OPS}
+        self.need["amb"] |= {"loser_closed", "three_way"}
+        self.samples = []
+
+
+def _vacuity(need, groups):
     """Every outcome class the statement talks about must actually occur in the exported scenarios of each
-    core operator (else the comparison would be vacuous): machinery failure otherwise."""
-    need = {o: {"tuple", "completed", "failed", "silent", "tie_matters", "disposed", "disposed_in_on_next"} for o in cc.CORE_OPS}
-    need["amb"] |= {"loser_closed", "three_way"}
+    core operator (else the comparison would be vacuous)."""
     for scn, allowed in groups:
         o = scn["op"]
         if o not in need or not need[o]:
@@ -51,9 +65,31 @@ def _vacuity(groups):
                     have.discard("three_way")
         if len({json.dumps(a["out"]) for a in allowed}) > 1:
             have.discard("tie_matters")
-    missing = {o: sorted(v) for o, v in need.items() if v}
-    if missing:
-        raise RuntimeError(f"vacuous export: outcome classes never produced by the model: {missing}")
+
+
+def _family(ck, acc, job, vfn):
+    """one family end to end: TLC (model invariants + export, or simulate -> all tie orders), grouping,
+    replay on the real code, then only counters survive"""
+    kind, label, c, num, depth, seed = job
+    if kind == "exhaustive":
+        lines = cc.export_runs(ck, [(label, c)], 3000, 1, None, job[6] if len(job) > 6 else 1)
+    else:
+        lines = cc.simulate_then_enumerate(ck, label, c, num, depth, seed, timeout=3000)
+    groups = core.group_allowed(lines)
+    del lines
+    cc.replay_groups(ck, groups, vfn, procs=1)
+    with acc.lock:
+        acc.scenarios += len(groups)
+        acc.several += sum(1 for g in groups if len(g[1]) > 1)
+        acc.nontrivial += sum(1 for g in groups if cc.nontrivial(*g))
+        for s_, _ in groups:
+            key = f"{s_['op']}/{s_['n']}"
+            acc.by[key] = acc.by.get(key, 0) + 1
+        _vacuity(acc.need, groups)
+        rnd = random.Random(ck.seed + len(acc.samples))
+        if len(acc.samples) < 6 and groups:
+            g = rnd.choice(groups)
+            acc.samples.append({"family": label[:60], "scn": g[0], "allowed": g[1]})
 
 
 def run(tier: str) -> int:
@@ -64,60 +100,58 @@ def run(tier: str) -> int:
                "TLC on OpsCombine.tla; each scenario replayed on the real static and operator forms, hot and cold sources, "
                "both creation orders; non-trivial = more than one allowed observation (a tie or a completion window "
                "matters) or at least one element emitted")
-    runs = []          # exhaustive runs: (label, constants)
     G3 = ["take_until", "skip_until", "zip_with_iterable"]
+    E = "exhaustive"
+    jobs = []
     if quick:
-        # one TLC process for three families (a short TLC run is dominated by JVM start and warm-up)
-        runs.append(("preset quick: " + "; ".join(cc.PRESETS["quick"]), cc.preset("quick")))
-        sims = []          # sampled 3/4-source tuples with long timelines: thorough tier only (two more TLC stages)
+        # one TLC process (3 workers) for three families: a short TLC run is dominated by JVM start and warm-up
+        jobs.append((E, "preset quick: " + "; ".join(cc.PRESETS["quick"]), cc.preset("quick"), 0, 0, 0, 3))
+        par = 1
     else:
+        sd = ck.seed
         for o in cc.CORE_OPS:
-            runs.append((o + " n<=2", cc.consts([o], {1, 2}, 3, 4)))
-        for o in cc.CORE_OPS:
-            runs.append((o + " n=3", cc.consts([o], {3}, 2, 2)))
-        runs.append(("growth", cc.consts(G3, {2}, 3, 4)))
-        runs.append(("sequence_equal(observable)", cc.consts(["sequence_equal"], {2}, 2, 3, nvals=2, faults=True)))
-        runs.append(("subscription-instant notifications (cold)", cc.consts(cc.CORE_OPS + G3, {1, 2}, 2, 2, mint=0)))
-        runs.append(("dispose n=2", cc.consts(cc.CORE_OPS + G3, {2}, 2, 3, disposes=True, dispose_in=2)))
-        runs.append(("dispose n=3", cc.consts(cc.CORE_OPS, {3}, 1, 2, disposes=True, dispose_in=1)))
-        sims = [("n=3 len<=3", cc.consts(cc.CORE_OPS, {3}, 3, 4), 5000, 60),
-                ("n=4 len<=3", cc.consts(cc.CORE_OPS, {4}, 3, 4), 8000, 60),
-                ("n=4 len<=3 sparse ties", cc.consts(cc.CORE_OPS, {4}, 3, 8), 4000, 60),
-                ("n=4 dispose", cc.consts(cc.CORE_OPS, {4}, 2, 3, disposes=True, dispose_in=2), 3000, 60)]
-
-    # exhaustive exports and the simulate->enumerate pairs run side by side (<= 5 TLC processes)
-    with ThreadPoolExecutor(2) as ex:
-        f_ex = ex.submit(cc.export_runs, ck, runs, 3000, 1 if quick else 3, None, 3 if quick else 1)   # thorough: + 1 for the simulate/enumerate chain
-        f_sim = ex.submit(lambda: [ln for j, (lab, c, num, depth) in enumerate(sims)
-                                   for ln in cc.simulate_then_enumerate(ck, lab, c, num, depth, ck.seed + 11 + j, timeout=3000)])
-        lines = f_ex.result() + f_sim.result()
-    ck.exhaustive = False      # exhaustive for the constants of the runs listed in tlc_runs; n=3/4 x long lanes are sampled
-    groups = core.group_allowed(lines)
-    ck.note("scenarios", len(groups))
-    ck.note("scenarios_with_several_allowed_observations", sum(1 for g in groups if len(g[1]) > 1))
-    by = {}
-    for s, _ in groups:
-        key = f"{s['op']}/{s['n']}"
-        by[key] = by.get(key, 0) + 1
-    ck.note("scenarios_by_operator_arity", dict(sorted(by.items())))
-    _vacuity(groups)
-
-    level = 1 if quick else 2
+            jobs.append((E, o + " n<=2", cc.consts([o], {1, 2}, 3, 4), 0, 0, 0))
+        jobs.append((E, "core n=3", cc.consts(cc.CORE_OPS, {3}, 2, 2, terms=("C", "U")), 0, 0, 0))
+        jobs.append(("sim", "n=3 len<=3", cc.consts(cc.CORE_OPS, {3}, 3, 4), 3000, 60, sd + 11))
+        jobs.append((E, "growth", cc.consts(G3, {2}, 3, 4), 0, 0, 0))
+        jobs.append(("sim", "n=4 len<=3", cc.consts(cc.CORE_OPS, {4}, 3, 4), 3000, 60, sd + 12))
+        jobs.append((E, "sequence_equal(observable)", cc.consts(["sequence_equal"], {2}, 2, 2, nvals=2, faults=True), 0, 0, 0))
+        jobs.append((E, "subscription-instant notifications (cold)", cc.consts(cc.CORE_OPS + G3, {1, 2}, 2, 2, mint=0), 0, 0, 0))
+        jobs.append(("sim", "n=4 len<=3 sparse ties", cc.consts(cc.CORE_OPS, {4}, 3, 8), 2000, 60, sd + 13))
+        jobs.append((E, "dispose n=2", cc.consts(cc.CORE_OPS + G3, {2}, 2, 2, disposes=True, dispose_in=2), 0, 0, 0))
+        jobs.append((E, "dispose n=3", cc.consts(cc.CORE_OPS, {3}, 1, 2, terms=("C", "U"), disposes=True, dispose_in=1), 0, 0, 0))
+        jobs.append(("sim", "n=4 dispose", cc.consts(cc.CORE_OPS, {4}, 2, 3, disposes=True, dispose_in=2), 1500, 60, sd + 14))
+        par = 3
 
     def vfn(s):
-        vs = cc.variants_for(s, level if s["dsp"] < 0 else 0)
+        vs = cc.variants_for(s, 1 if s["dsp"] < 0 else 0)
         if s["dsp"] >= 0:      # both tie orders of the dispose action
             vs = vs + [dict(v, dfirst=not v["dfirst"]) for v in vs]
+        h = sum(map(ord, json.dumps(s, sort_keys=True)))
         if not quick:
-            vs = vs + cc.variants_for(s, 0, profile="falsy") + cc.variants_for(s, 0, sched="hist")[:1]
-        elif sum(map(ord, json.dumps(s, sort_keys=True))) % 4 == 0:
+            vs = vs + cc.variants_for(s, 0, profile="falsy")[h % 2:][:1] + cc.variants_for(s, 0, sched="hist")[(h + 1) % 2:][:1]
+            if h % 8 == 0:
+                vs = vs + [dict(v, form="fluent") for v in vs[:1]]
+        elif h % 4 == 0:
             vs = vs + cc.variants_for(s, 0, profile="falsy")[:1] + cc.variants_for(s, 0, sched="hist")[1:]
         return vs
-    cc.replay_groups(ck, groups, vfn, procs=1 if quick else 3, serial_below=150000)
-    ck.nontrivial = sum(1 for g in groups if cc.nontrivial(*g))
-    rnd = random.Random(ck.seed)
-    for g in rnd.sample(groups, min(5, len(groups))):
-        ck.sample({"scn": g[0], "allowed": g[1]})
+
+    # Families are processed end to end (TLC -> grouping -> replay) by a few threads: TLC runs in its own
+    # process while another family is being replayed in this one; export lines are dropped after replay.
+    acc = _Acc()
+    with ThreadPoolExecutor(par) as ex:
+        for f in [ex.submit(_family, ck, acc, j, vfn) for j in jobs]:
+            f.result()
+    ck.exhaustive = False      # exhaustive for the constants of each run in tlc_runs; 3/4 sources x long timelines are sampled
+    ck.note("scenarios", acc.scenarios)
+    ck.note("scenarios_with_several_allowed_observations", acc.several)
+    ck.note("scenarios_by_operator_arity", dict(sorted(acc.by.items())))
+    missing = {o: sorted(v) for o, v in acc.need.items() if v}
+    if missing:
+        raise RuntimeError(f"vacuous export: outcome classes never produced by the model: {missing}")
+    ck.nontrivial = acc.nontrivial
+    for x in acc.samples:
+        ck.sample(x)
     ck.note("asserted_projection", {
         "compared": ["emitted values (tuple components by identity of the source's element objects) and their instants",
                      "terminal kind and instant; exception object identity",
